@@ -262,3 +262,28 @@ def install():
 
 def real_time():
     return _real_time()
+
+
+ZONES = ('UTC', 'VPA-5', 'VPB5')       # POSIX TZ strings: UTC, UTC+5, UTC-5
+
+
+def zone_of(key):
+    """A process time zone chosen as a stable function of an evaluation's coordinates: SAML instants are UTC, so
+    every verdict must be the same in every zone; spreading evaluations over zones exposes local-time arithmetic."""
+    import zlib
+    return ZONES[zlib.crc32(repr(key).encode('utf-8')) % len(ZONES)]
+
+
+class in_zone(object):
+    def __init__(self, tz):
+        self.tz = tz
+
+    def __enter__(self):
+        import os
+        os.environ['TZ'] = self.tz
+        _time.tzset()
+
+    def __exit__(self, *a):
+        import os
+        os.environ['TZ'] = 'UTC'
+        _time.tzset()
